@@ -5,8 +5,10 @@
   on classes (char_data/mod.rs), and the class patterns, arm by arm, of the `match` statements that drive
   `explicit::compute` (X1–X8), `compute_initial_info` (P2/P3, X5c, flags), `reorder_levels` (L1) and
   `get_base_direction_impl`.  The theorems state that they are the predicates of the Model, respectively that every
-  class is handled by the arm the Model's transcription puts it in (`armOf` = index of the first arm whose pattern
-  lists the class, the catch-all arm otherwise — insensitive to the order of alternatives inside a pattern).
+  `match` partitions the classes into arms exactly as the Model's transcription does: two classes are handled by the
+  same arm of the source iff the Model handles them in the same case (`armOf` = index of the first arm whose pattern
+  lists the class, the catch-all arm otherwise).  The statement is insensitive to the order of the arms and of the
+  alternatives inside a pattern, so a harmless re-ordering of the source does not break it.
   A change of one of these class sets in the source breaks a theorem here.
 -/
 import UBidi.Gen.Code
@@ -31,8 +33,8 @@ def explicitArm : BidiClass → Nat
   | B => 3
   | _ => 4
 
-theorem tie_explicit_arms (c : BidiClass) : armOf Gen.Code.arms_explicit_compute c = explicitArm c := by
-  cases c <;> rfl
+theorem tie_explicit_arms (c d : BidiClass) : (armOf Gen.Code.arms_explicit_compute c = armOf Gen.Code.arms_explicit_compute d) ↔ (explicitArm c = explicitArm d) := by
+  cases c <;> cases d <;> decide
 
 /-- `compute_initial_info`: B / strong / other non-pure-LTR markers / isolate initiators / PDI / rest
     (the cases of the Model's `iiStep`) -/
@@ -44,8 +46,8 @@ def initialArm : BidiClass → Nat
   | PDI => 4
   | _ => 5
 
-theorem tie_initial_arms (c : BidiClass) : armOf Gen.Code.arms_compute_initial_info c = initialArm c := by
-  cases c <;> rfl
+theorem tie_initial_arms (c d : BidiClass) : (armOf Gen.Code.arms_compute_initial_info c = armOf Gen.Code.arms_compute_initial_info d) ↔ (initialArm c = initialArm d) := by
+  cases c <;> cases d <;> decide
 
 /-- `reorder_levels` (L1): separators / white space and isolate controls / X9-removed / rest
     (the cases of the Model's `reorderLevels` step) -/
@@ -55,8 +57,8 @@ def l1Arm : BidiClass → Nat
   | RLE | LRE | RLO | LRO | PDF | BN => 2
   | _ => 3
 
-theorem tie_l1_arms (c : BidiClass) : armOf Gen.Code.arms_reorder_levels c = l1Arm c := by
-  cases c <;> rfl
+theorem tie_l1_arms (c d : BidiClass) : (armOf Gen.Code.arms_reorder_levels c = armOf Gen.Code.arms_reorder_levels d) ↔ (l1Arm c = l1Arm d) := by
+  cases c <;> cases d <;> decide
 
 /-- the X9-removed arm of L1 is `removed_by_x9` -/
 theorem tie_l1_removed (c : BidiClass) : (l1Arm c == 2) = c.removedByX9 := by cases c <;> rfl
@@ -70,8 +72,8 @@ def baseDirArm : BidiClass → Nat
   | B => 4
   | _ => 6
 
-theorem tie_basedir_arms (c : BidiClass) : armOf Gen.Code.arms_get_base_direction_impl c = baseDirArm c := by
-  cases c <;> rfl
+theorem tie_basedir_arms (c d : BidiClass) : (armOf Gen.Code.arms_get_base_direction_impl c = armOf Gen.Code.arms_get_base_direction_impl d) ↔ (baseDirArm c = baseDirArm d) := by
+  cases c <;> cases d <;> decide
 
 /-- the isolate-initiator set is the same in all three scanners -/
 theorem tie_isolate_initiators (c : BidiClass) :
